@@ -323,7 +323,7 @@ def run_c18(c, tier, langs=("c", "cpp")):
         # (3) declarations that do not belong to CGlue constructs survive unmodified and in order
         if model["foreign"]:
             if lang == "c":
-                names = ["FooVtbl", "Pt", "CSliceRef_u8", "BarRetTmp_x", "user_function_Container", "api_entry"]
+                names = ["FooVtbl", "Pt", "CSliceRef_u8", "UserKeeper", "BarRetTmp_x", "user_function_Container", "api_entry"]
                 a = foreign_decls(open(raw).read(), names)
                 b = foreign_decls(first.decode(), names)
             else:
